@@ -88,6 +88,9 @@ const (
 	ipLo        = 0
 )
 
+// MaxFunctionVars is the largest parameter or local variable count a function value can hold.
+const MaxFunctionVars = 1<<(paramsCntHi-paramsCntLo+1) - 1
+
 // NewFunction allocates a new function value.
 func NewFunction(node int, frame *[]Type, paramCnt int, localCnt int) Type {
 	nd := ((uint64)(node)) & ((1 << (ipHi - ipLo + 1)) - 1)
